@@ -484,17 +484,35 @@ fn put_views(o: &mut Out, v: &Views) {
     put_ces(o, "resa", &v.resa);
 }
 
-/// the forward views agree with the specification and with each other
-fn check_views(orc: &mut Oracle, site: &str, class: &str, v: &Views, spec: &[Ce]) {
+/// the forward views agree with the specification and with each other; returns the first
+/// failing sub-clause
+fn views_failure(v: &Views, spec: &[Ce]) -> Option<(&'static str, String)> {
     let spec_pos = strip(spec);
-    orc.check(v.iter == spec_pos, &format!("{}.iter/spec", site), class, || first_diff(&v.iter, &spec_pos));
-    let wf = well_formed(&v.iter);
-    orc.check(wf.is_ok(), &format!("{}.iter/well-formed", site), class, || wf.clone().unwrap_err());
-    orc.check(v.res == v.iter, &format!("{}.id_iter/resolves", site), class, || first_diff(&v.res, &v.iter));
-    orc.check(v.attr == spec, &format!("{}.iter_with_attributes/spec", site), class, || first_diff(&v.attr, spec));
-    let wf = well_formed(&v.attr);
-    orc.check(wf.is_ok(), &format!("{}.iter_with_attributes/well-formed", site), class, || wf.clone().unwrap_err());
-    orc.check(v.resa == v.attr, &format!("{}.attributes/by-id", site), class, || first_diff(&v.resa, &v.attr));
+    if v.iter != spec_pos {
+        return Some(("iter/spec", first_diff(&v.iter, &spec_pos)));
+    }
+    if let Err(e) = well_formed(&v.iter) {
+        return Some(("iter/well-formed", e));
+    }
+    if v.res != v.iter {
+        return Some(("id_iter/resolves", first_diff(&v.res, &v.iter)));
+    }
+    if v.attr != spec {
+        return Some(("iter_with_attributes/spec", first_diff(&v.attr, spec)));
+    }
+    if let Err(e) = well_formed(&v.attr) {
+        return Some(("iter_with_attributes/well-formed", e));
+    }
+    if v.resa != v.attr {
+        return Some(("attributes/by-id", first_diff(&v.resa, &v.attr)));
+    }
+    None
+}
+
+fn check_views(orc: &mut Oracle, site: &str, v: &Views, spec: &[Ce]) {
+    if let Some((sub, detail)) = views_failure(v, spec) {
+        orc.check(false, &format!("{}.{}", site, sub), "generic", || detail);
+    }
 }
 
 fn put_endpoint(o: &mut Out, label: &str, e: &Option<(Point, &[f32])>) {
@@ -549,7 +567,7 @@ fn family_path(ctx: &mut Ctx) {
 
             // oracle
             let spec = spec_events(&prog);
-            check_views(&mut orc, "path", "generic", &v, &spec);
+            check_views(&mut orc, "path", &v, &spec);
             let sl = path.as_slice();
             let sv = views!(&sl);
             orc.check(sv.iter == v.iter && sv.attr == v.attr && sv.idit == v.idit && sv.res == v.res && sv.resa == v.resa,
@@ -634,7 +652,7 @@ fn family_concat(ctx: &mut Ctx) {
             }
             whole.extend(prog_last.iter().cloned());
             let spec = spec_events(&whole);
-            check_views(&mut orc, "concat", "generic", &v, &spec);
+            check_views(&mut orc, "concat", &v, &spec);
             // … and as the concatenation of what the parts themselves read as
             let mut app: Vec<Ce> = build_path(plain, n, &prog0).0.iter_with_attributes().map(|e| ce_attr(&e)).collect();
             for p in &parts {
@@ -703,7 +721,6 @@ fn family_buffer(ctx: &mut Ctx) {
                     if (*n > 0) != (pass == 1) {
                         continue;
                     }
-                    let class = if *n > 0 { "with-attributes" } else { "generic" };
                     let sl = buffer.get(i);
                     orc.check(all_ids[i].0 == i, "buffer.build/index", "generic", || format!("{} vs {}", all_ids[i].0, i));
                     let eps = prog_endpoints(prog);
@@ -711,7 +728,12 @@ fn family_buffer(ctx: &mut Ctx) {
                     let ok = ids.len() == eps.len() && ids.iter().zip(eps.iter()).all(|(id, (p, _))| vh::guarded(|| sl[EndpointId(*id)]) == Some(pt(p)));
                     orc.check(ok, "buffer.builder-ids/position", "generic", || format!("entry {} ids {:?}", i, ids));
                     let spec = spec_events(prog);
-                    check_views(&mut orc, "buffer.get", class, &vs[i], &spec);
+                    if *n == 0 {
+                        check_views(&mut orc, "buffer.get", &vs[i], &spec);
+                    } else if let Some((sub, detail)) = views_failure(&vs[i], &spec) {
+                        // one clause for an entry written with attributes (listed finding)
+                        orc.check(false, "buffer.get/entry-with-attributes", "with-attributes", || format!("entry {} {}: {}", i, sub, detail));
+                    }
                 }
             }
             CaseOut { imp: o, orcl: orc.verdict }
